@@ -416,10 +416,11 @@ Proof. vm_compute. reflexivity. Qed.
 (* ====================================================================== *)
 Section ObjProofs.
   Variable data : list Z.
+  Variable nat_dt : Z.
   Variable reuse : bool.
 
-  Let step := ostep data true reuse.
-  Let run := orun data true reuse.
+  Let step := ostep data true nat_dt reuse.
+  Let run := orun data true nat_dt reuse.
 
   Definition OInv (s : ostate) : Prop :=
     match o_array s with
@@ -456,27 +457,27 @@ Section ObjProofs.
   Qed.
 
   Lemma ostep_ok s o :
-    OInv s -> OInv (fst (step s o)) /\ oobs (snd (step s o)) = ospec data o.
+    OInv s -> OInv (fst (step s o)) /\ oobs (snd (step s o)) = ospec data nat_dt o.
   Proof.
     intros HI. destruct o as [r|j delta]; unfold step, ostep.
     - pose proof (ensure_ok s HI) as He.
-      destruct (ensure data true reuse s) as [[h0 a] b]. destruct He as [Ha Hb].
-      assert (Hlt : (a < length h0)%nat) by (apply nth_error_Some; congruence).
-      destruct r as [|lo hi|idx|].
-      + cbn [fst snd]. split; [unfold OInv; simpl; exact Ha|].
-        simpl. unfold view_value. simpl. rewrite Hb. now rewrite select_all.
-      + cbn [fst snd]. split; [unfold OInv; simpl; exact Ha|].
-        simpl. unfold view_value. simpl. now rewrite Hb.
-      + destruct (select data (map Z.to_nat idx)) as [l|] eqn:Hs.
-        * unfold halloc. cbn [fst snd]. split.
-          -- unfold OInv; simpl. now rewrite nth_error_app1.
-          -- simpl. rewrite Hs. unfold view_value. cbn [fst snd].
-             rewrite hget_app_new. now rewrite select_all.
-        * cbn [fst snd]. split; [unfold OInv; simpl; exact Ha|].
-          simpl. rewrite Hs. unfold view_value. simpl. now rewrite Hb.
-      + unfold halloc. cbn [fst snd]. split.
-        * unfold OInv; simpl. now rewrite nth_error_app1.
-        * simpl. unfold view_value. cbn [fst snd]. rewrite hget_app_new. now rewrite select_all.
+      destruct r as [|lo hi|idx| |d cp|i|];
+        try (split; [exact HI|reflexivity]);
+        (destruct (ensure data true reuse s) as [[h0 a] b]; destruct He as [Ha Hb];
+         assert (Hlt : (a < length h0)%nat) by (apply nth_error_Some; congruence);
+         unfold oobs, ospec;
+         match goal with |- context [rd_view data nat_dt ?R] =>
+           destruct (rd_view data nat_dt R) as [pos|] eqn:Hv;
+           [ cbn [fst snd]; split; [unfold OInv; simpl; exact Ha|];
+             unfold view_value; cbn [fst snd]; rewrite Hb; reflexivity
+           | destruct (rd_fresh data nat_dt R) as [l|] eqn:Hf;
+             [ unfold halloc; cbn [fst snd]; split;
+               [ unfold OInv; simpl; now rewrite nth_error_app1
+               | unfold view_value; cbn [fst snd]; rewrite hget_app_new;
+                 now rewrite select_all ]
+             | cbn [fst snd]; split; [unfold OInv; simpl; exact Ha|];
+               unfold view_value; cbn [fst snd]; rewrite Hb; reflexivity ] ]
+         end).
     - destruct (nth_error (o_outs s) j) as [v|]; [|split; [exact HI|reflexivity]].
       destruct (hmodify (o_heap s) (fst v) (fun l => bump l (snd v) delta)) as [h1 ok] eqn:Hm.
       cbn [fst snd]. split; [|reflexivity].
@@ -487,31 +488,33 @@ Section ObjProofs.
   Qed.
 
   Lemma obj_history_fresh_from : forall ops s,
-    OInv s -> map oobs (snd (run s ops)) = map (ospec data) ops.
+    OInv s -> map oobs (snd (run s ops)) = map (ospec data nat_dt) ops.
   Proof.
     induction ops as [|o ops IH]; intros s HI; [reflexivity|].
     destruct (ostep_ok s o HI) as [HI' Hobs].
     unfold run in *. simpl. fold step. destruct (step s o) as [s1 r].
     specialize (IH s1 HI').
-    destruct (orun data true reuse s1 ops) as [s2 rs]. simpl in *. now rewrite Hobs, IH.
+    destruct (orun data true nat_dt reuse s1 ops) as [s2 rs]. simpl in *. now rewrite Hobs, IH.
   Qed.
 
   Lemma obj_history_fresh : forall ops,
-    map oobs (snd (run o_init ops)) = map (ospec data) ops.
+    map oobs (snd (run o_init ops)) = map (ospec data nat_dt) ops.
   Proof. intros ops. apply obj_history_fresh_from. exact I. Qed.
 End ObjProofs.
 
 (* a writable cached array: ds["deform"][:][0] = 999 changes later reads *)
 Lemma obj_alias_refuted :
-  exists data ops, map oobs (snd (orun data false true o_init ops)) <> map (ospec data) ops.
+  exists data ops, map oobs (snd (orun data false 3 true o_init ops)) <> map (ospec data 3) ops.
 Proof.
   exists [1; 2; 3], [ORead RdAll; OMut 0 7; ORead (RdSlice 1 3)]. vm_compute. discriminate.
 Qed.
 
 Example obj_example :
-  map oobs (snd (orun [1; 2; 3; 4] true true o_init
-                      [ORead (RdSlice 1 3); OMut 0 7; ORead (RdFancy [3; 0]); OMut 1 5;
-                       ORead RdCopy; OMut 2 1; ORead RdAll]))
-  = [Some (Some [2; 3]); None; Some (Some [4; 1]); None; Some (Some [1; 2; 3; 4]); None;
-     Some (Some [1; 2; 3; 4])].
+  map oobs (snd (orun [8; 20; 27; 36] true 3 true o_init
+                      [ORead (RdConv 2 0); ORead (RdSlice 1 3); OMut 0 8; OMut 1 8;
+                       ORead (RdFancy [3; 0]); ORead (RdConv 1 0); ORead (RdItem 2);
+                       ORead (RdConv 3 0); OMut 5 8; ORead RdAll]))
+  = [Some (2, Some [8; 16; 24; 32]); Some (3, Some [20; 27]); None; None;
+     Some (3, Some [36; 8]); Some (1, Some [8; 20; 27; 36]); Some (3, Some [27]);
+     Some (3, Some [8; 20; 27; 36]); None; Some (3, Some [8; 20; 27; 36])].
 Proof. vm_compute. reflexivity. Qed.
